@@ -9,7 +9,7 @@ CHECK = {
     ],
     "tests": [
         T("vfsdir", "TestC14DirectoryLockLeak",
-          {"checks": 2500, "shards": 4, "timeout": 300, "steps": 40},
+          {"checks": 2000, "shards": 4, "timeout": 300, "steps": 40},
           {"checks": 30000, "shards": 16, "timeout": 1500, "steps": 60}),
     ],
 }
